@@ -140,6 +140,7 @@ PROPS = {
                      "prog_wf(prog): static well-formedness of the program (jump targets, slot indices, counter / position slot typing) is a PRECONDITION of run; U-COMPILE covers the functions that emit code",
                      "T-RA-search / T-RA-look: regex-automata's anchored search returns offsets in [ix, len] on char boundaries with paired slots; LookMatcher is total and the unicode word-boundary variants return Ok",
                      "the inner interpreter loop is verified with exec_allows_no_decreases_clause: termination of a non-failing instruction cycle is NOT proved"],
+        bounded_families=['refsem'],
     ),
     'C02': dict(
         level='proof',
@@ -154,6 +155,7 @@ PROPS = {
                      "prog_wf(prog): static well-formedness of the program (jump targets, slot indices, counter / position slot typing) is a PRECONDITION of run; U-COMPILE covers the functions that emit code",
                      "T-RA-search / T-RA-look: regex-automata's anchored search returns offsets in [ix, len] on char boundaries with paired slots; LookMatcher is total and the unicode word-boundary variants return Ok",
                      "the inner interpreter loop is verified with exec_allows_no_decreases_clause: termination of a non-failing instruction cycle is NOT proved"],
+        bounded_families=['refsem'],
     ),
     'C15': dict(
         level='proof',
@@ -169,6 +171,7 @@ PROPS = {
                      "prog_wf(prog): static well-formedness of the program (jump targets, slot indices, counter / position slot typing) is a PRECONDITION of run; U-COMPILE covers the functions that emit code",
                      "T-RA-search / T-RA-look: regex-automata's anchored search returns offsets in [ix, len] on char boundaries with paired slots; LookMatcher is total and the unicode word-boundary variants return Ok",
                      "the inner interpreter loop is verified with exec_allows_no_decreases_clause: termination of a non-failing instruction cycle is NOT proved"],
+        bounded_families=['refsem'],
     ),
     'C11': dict(
         level='other',
